@@ -526,3 +526,15 @@ mod tests {
         }
     }
 }
+
+/// Verification hooks (only with `--cfg scylla_verif`): pass-through to the crate-private
+/// `PartitionerName::from_str`.
+#[cfg(scylla_verif)]
+#[allow(missing_docs)]
+pub mod verif_hooks {
+    use super::PartitionerName;
+
+    pub fn partitioner_name_from_str(name: &str) -> Option<PartitionerName> {
+        PartitionerName::from_str(name)
+    }
+}
